@@ -12,7 +12,7 @@ from verif.specs import sx
 from verif.specs.sx import X
 
 LEVEL = 'other'
-EXPECTED_MIN = {'quick': 3, 'thorough': 3}
+EXPECTED_MIN = {'quick': 2, 'thorough': 2}
 EXPLANATION = ('PROVED: contact.get hands the collision routine, for every geom, the world pose  x_link o geom_local  (position x.pos + R(x.rot) geom_pos, orientation matrix '
                'R(x.rot * geom_quat)) for ALL link poses and geom offsets, with geoms of the world body left at their local pose (index -1 = appended identity); each contact is '
                'attributed to links geom_bodyid[geom] - 1 and gets the mean of the two geoms\' elasticities, for ANY contact list returned by the collision routine.  BOUNDED (not '
